@@ -439,6 +439,24 @@ def _flatten(e: ast.expr, want: bool, nz: Normalizer, node: t.Any, b: t.Dict[str
     return {(a, pos == want)}
 
 
+def _split_phi(form: str) -> t.List[str]:
+    if not (form.startswith('PHI(') and form.endswith(')')):
+        return [form]
+    out, cur, depth = [], '', 0
+    for ch in form[4:-1]:
+        if ch in '([{':
+            depth += 1
+        elif ch in ')]}':
+            depth -= 1
+        if ch == '|' and depth == 0:
+            out.append(cur)
+            cur = ''
+        else:
+            cur += ch
+    out.append(cur)
+    return [y for x in out for y in _split_phi(x)]
+
+
 def rule_c05_r5(model: Model) -> RuleResult:
     r = RuleResult('C05-R5', 'tuple writer and tuple reader select the same fields; every writer honours exclude', floor=4)
     cls = model.cls('pane.classes.PaneConverter')
@@ -483,7 +501,17 @@ def rule_c05_r5(model: Model) -> RuleResult:
     # dict() honours exclude
     d = model.func('pane.classes.PaneBase.dict')
     r.instances += 1
-    if 'field.exclude' in unparse(d.node):
+    dcfg = cfg_of(model, d)
+    dnz = Normalizer(model, d, dcfg, param_map={p_: (p_ if p_ in ('self', 'cls') else f'${p_}') for p_ in d.params})
+    forms_d: t.List[str] = []
+    for n_ in dcfg.live_nodes():
+        if n_.kind == 'return' and n_.ast is not None and n_.ast.value is not None:
+            fm = dnz.expr(n_.ast.value, n_)
+            forms_d.extend(_split_phi(fm))
+    # every collection built from the class's field list (the full view) filters on `not exclude`
+    full = [x for x in forms_d if 'self.__pane_info__.fields' in x]
+    r.sample({'dict() builds': [x[:110] for x in forms_d]})
+    if full and all(re.search(r'if (?:.* and )?not TRUTHY\(ELEM\(self\.__pane_info__\.fields\)\.exclude\)', x) for x in full):
         r.ok()
     else:
         r.fail(d.qualname, 'dict() lacks the exclude filter', d.loc(), "PaneBase.dict() returns excluded fields")
